@@ -218,10 +218,8 @@ func tileLayoutEquivalent(a j2kCase) bool {
 				if rx1-rx0 != cdiv(w, d) || ry1-ry0 != cdiv(h, d) {
 					return false
 				}
-				// the decoder indexes code-blocks inside a precinct from the global precinct anchor
-				if rx0-rx0/pw*pw >= a.CBW || ry0-ry0/ph*ph >= a.CBH {
-					return false
-				}
+				// (until fix 7383270 the decoder also numbered the code-blocks of a precinct from the precinct's anchor on the
+				// reference grid; since then a band that merely starts away from the anchor is laid out alike on both sides)
 				bands := [][2]int{{0, 0}}
 				nb := L
 				if r > 0 {
